@@ -21,6 +21,8 @@ import (
 
 	"github.com/tsawler/tabula"
 	"github.com/tsawler/tabula/contentstream"
+	"github.com/tsawler/tabula/htmldoc"
+	"github.com/tsawler/tabula/rag"
 	"github.com/tsawler/tabula/reader"
 	"github.com/tsawler/tabula/text"
 	"pgregory.net/rapid"
@@ -36,7 +38,7 @@ import (
 // ---------------------------------------------------------------------------
 // documents, addressed by a small integer so that a case is replayable
 
-const nDocs = 40
+const nDocs = 44
 
 // Documents numbered dynBase and above are made on demand, each with private operators of its own (inside a
 // BX/EX compatibility section, ISO 32000-1 7.8.2, Table 32): the first parse of each is the first time the process
@@ -73,6 +75,27 @@ func formClash(variant int) []byte {
 		9: rawpdf.Stream("", p2),
 	}
 	return rawpdf.Build(o, 1)
+}
+
+// navDoc: HTML whose elements carry a class and an id of which only one names navigation ("sidebar", "menu",
+// "footer" ...), the same classes in every one of the four documents with other ids: a verdict remembered for
+// a class (or an id) alone would be carried from one document into the next.
+func navDoc(v int) []byte {
+	classes := []string{"card", "box", "panel", "sidebar", "content", "menu"}
+	ids := [][]string{
+		{"sidebar", "main", "menu", "intro", "footer", "body1"},
+		{"main", "sidebar", "intro", "menu", "body1", "footer"},
+		{"nav", "x1", "x2", "x3", "x4", "x5"},
+		{"x1", "navigation", "x3", "header", "x5", "x6"},
+	}[v]
+	var b strings.Builder
+	fmt.Fprintf(&b, "<html><head><title>Nav %d</title></head><body><h1>Document %d</h1>", v, v)
+	for k, cl := range classes {
+		fmt.Fprintf(&b, "<div class=%q id=%q><p>text %d of document %d in class %s id %s</p></div>", cl, ids[k], k, v, cl, ids[k])
+		fmt.Fprintf(&b, "<div id=%q><p>only id %d.%d</p></div><div class=%q><p>only class %d.%d</p></div>", ids[k]+"b", v, k, cl, v, k)
+	}
+	b.WriteString("</body></html>")
+	return []byte(b.String())
 }
 
 func dynText(i int) string { return fmt.Sprintf("private %d", i) }
@@ -124,6 +147,8 @@ func getDoc(i int) *docSpec {
 	switch {
 	case i >= dynBase:
 		d = &docSpec{kind: "pdf", ext: ".pdf", data: dynDoc(i)}
+	case i >= 40:
+		d = &docSpec{kind: "html", ext: ".html", data: navDoc(i - 40)}
 	case i >= 36:
 		// a Form XObject whose resources name another font /F1 than the page's inherited, shared resources do
 		d = &docSpec{kind: "pdf", ext: ".pdf", data: formClash(i - 36)}
@@ -202,7 +227,7 @@ func docPath(i int) string {
 	return p
 }
 
-var ops = []string{"text", "markdown", "jsonl", "csv", "document", "contentstream", "sharedreader"}
+var ops = []string{"text", "markdown", "jsonl", "csv", "document", "contentstream", "sharedreader", "chunkops", "htmlnav"}
 
 // runOp performs one extraction and returns a canonical byte string of its result.
 func runOp(doc int, op string) string {
@@ -248,6 +273,50 @@ func runOp(doc int, op string) string {
 			}
 		}
 		return b.String()
+	case "htmlnav":
+		// the HTML reader with its default (Standard) and with Aggressive navigation exclusion
+		if d.kind != "html" {
+			return "n/a"
+		}
+		var b strings.Builder
+		for _, mode := range []htmldoc.NavigationExclusionMode{htmldoc.NavigationExclusionStandard, htmldoc.NavigationExclusionAggressive, htmldoc.NavigationExclusionExplicit} {
+			r, err := htmldoc.OpenReader(bytes.NewReader(d.data))
+			if err != nil {
+				return fmt.Sprintf("err=%v", err)
+			}
+			o := htmldoc.DefaultExtractOptions()
+			o.NavigationExclusion = mode
+			t, e1 := r.TextWithOptions(o)
+			m, e2 := r.MarkdownWithOptions(o)
+			fmt.Fprintf(&b, "mode %v err=%v %v\n%s\n--\n%s\n", mode, e1, e2, t, m)
+			r.Close()
+		}
+		return b.String()
+	case "chunkops":
+		// rendering a chunk collection must not change it: the same export before and after
+		cc, _, err := open().Chunks()
+		if err != nil || cc == nil {
+			return fmt.Sprintf("err=%v", err)
+		}
+		j1, _ := cc.ToJSONL()
+		c1, _ := cc.ToCSV()
+		toc := rag.MarkdownOptions{IncludeTableOfContents: true, IncludeMetadata: true}
+		t1 := cc.ToMarkdownWithOptions(toc)
+		var b strings.Builder
+		for _, ch := range cc.Chunks {
+			b.WriteString(ch.ToMarkdown())
+			b.WriteString("\n")
+		}
+		for _, m := range cc.ToMarkdownChunks() {
+			b.WriteString(m)
+		}
+		if len(cc.Chunks) > 1 {
+			b.WriteString(cc.Filter(func(c *rag.Chunk) bool { return c.Metadata.ChunkIndex%2 == 1 }).ToMarkdown())
+		}
+		j2, _ := cc.ToJSONL()
+		c2, _ := cc.ToCSV()
+		t2 := cc.ToMarkdownWithOptions(toc)
+		return fmt.Sprintf("%s\nJSONL after rendering every chunk: equal=%v\nCSV: equal=%v\nMarkdown with contents: equal=%v\n%s", j1, j1 == j2, c1 == c2, t1 == t2, b.String())
 	case "sharedreader":
 		// several extractions through one reader.Reader: the later ones must not see what the earlier ones did
 		if d.kind != "pdf" {
@@ -405,6 +474,10 @@ func compare(where string, doc int, op, got string) error {
 	}
 	if op == "sharedreader" && strings.Contains(got, "equal=false") {
 		return fmt.Errorf("%s: extractions of document %d through one shared reader.Reader interfere with each other:\n%s", where, doc, got)
+	}
+	if op == "chunkops" && strings.Contains(got, "equal=false") {
+		i := strings.Index(got, "JSONL after rendering")
+		return fmt.Errorf("%s: rendering the chunks of document %d changed the collection (the same export differs before and after): %.300s", where, doc, got[i:])
 	}
 	if got != want {
 		i := 0
